@@ -545,6 +545,36 @@ func runC06(c *kit.Ctx) {
 			if s, ok, isParam := viaCallers(v, d, origin); isParam {
 				return s, ok
 			}
+			// result of a module helper (parseInfoAndBitfield(spec)): judged at the
+			// helper's returns
+			{
+				call, idx := (*ssa.Call)(nil), 0
+				switch x := v.(type) {
+				case *ssa.Call:
+					call = x
+				case *ssa.Extract:
+					call, _ = x.Tuple.(*ssa.Call)
+					idx = x.Index
+				}
+				if call != nil {
+					if h := call.Call.StaticCallee(); h != nil && h.Blocks != nil && kit.InModule(pkgOf(h)) && inPkg(h, c, "torrent") {
+						var parts []string
+						for _, r := range returnsOf(h) {
+							if r.Block() == h.Recover || idx >= len(r.Results) {
+								continue
+							}
+							s, ok := origin(r.Results[idx], d+1)
+							if !ok {
+								return s, false
+							}
+							parts = append(parts, s)
+						}
+						if len(parts) > 0 {
+							return strings.Join(parts, "|"), true
+						}
+					}
+				}
+			}
 			return e.String(), false
 		}
 		entries := 0
